@@ -34,8 +34,12 @@ def c_this(inner, d):
 def c_typefn(inner, d):
     return ['x%d := x%d' % (d + 1, d)] + inner + ['ty%d := r%d->type()' % (d, d + 1), 'r%d := r%d + ty%d->len() + [r%d]->type()->len()' % (d, d + 1, d, d + 1)]
 
+def c_eq(inner, d):
+    return ['e%d := [x%d]' % (d, d), 'x%d := x%d' % (d + 1, d)] + inner + ['same%d := [e%d, e%d] == [[x%d], [r%d]]' % (d, d, d, d, d + 1), 'ob%de := {"k": e%d}' % (d, d), 'same2%d := {"p": ob%de, "q": ob%de} != {"p": {"k": [x%d]}, "q": {"k": [r%d]}}' % (d, d, d, d, d + 1),
+                                                                       'r%d := r%d' % (d, d + 1), 'if same%d {' % d, '    r%d = r%d + 1' % (d, d + 1), '}', 'if same2%d {' % d, '    r%d = r%d - 2' % (d, d), '}']
+
 CONSTRUCTS = {'ops': c_ops, 'block': c_block, 'if': c_if, 'while': c_while, 'for': c_for, 'fn': c_fn, 'closure': c_closure, 'list': c_list, 'object': c_object, 'string': c_string,
-              'destructure': c_destructure, 'spread': c_spread, 'this': c_this, 'typefn': c_typefn}
+              'destructure': c_destructure, 'eq': c_eq, 'spread': c_spread, 'this': c_this, 'typefn': c_typefn}
 
 def build(names):
     d = len(names)
